@@ -1369,6 +1369,7 @@ class FortranFile:
         line_no_end = 0
         block_id_stack = []
         docs: list[str] = []  # list used to temporarily store docstrings
+        docs_line = 0  # line of the statement the trailing docstring came from
         counters = Counter(
             do=0,
             ifs=0,
@@ -1400,7 +1401,7 @@ class FortranFile:
 
             # Parse documentation strings to AST nodes, this implicitly operates
             # on docs, i.e. appends or nullifies it
-            idx = self.parse_docs(line, line_no, file_ast, docs)
+            idx = self.parse_docs(line, line_no, file_ast, docs, docs_line)
             if idx:
                 line_no = idx
                 line_no_end = line_no
@@ -1445,6 +1446,7 @@ class FortranFile:
                 line_no_comment = line[:comm_ind]
                 line_stripped = line_stripped[:comm_ind]
                 docs = self.get_single_line_docstring(line[comm_ind:])
+                docs_line = line_no
             else:
                 line_no_comment = line
             # Split lines with semicolons, place the multiple lines into a stack
@@ -1976,7 +1978,14 @@ class FortranFile:
         log.debug("%s !!! CONTAINS - Ln:%d", line, ln)
         return True
 
-    def parse_docs(self, line: str, ln: int, file_ast: FortranAST, docs: list[str]):
+    def parse_docs(
+        self,
+        line: str,
+        ln: int,
+        file_ast: FortranAST,
+        docs: list[str],
+        docs_line: int = None,
+    ):
         """Parse documentation stings of style Doxygen or FORD.
         Multiline docstrings are detected if the first comment starts with `!>`
         docstring continuations are detected with either `!>`, `!<` or `!!`
@@ -2028,8 +2037,14 @@ class FortranFile:
         def add_line_comment(file_ast: FortranAST, docs: list[str]):
             # Handle dangling comments from previous line
             if docs:
-                file_ast.add_doc(format(docs))
-                log.debug("%s !!! Doc string - Line:%d", format(docs), ln)
+                # A trailing comment documents what its own statement declares,
+                # an executable statement declares nothing
+                last_obj = file_ast.last_obj
+                if docs_line is None or (
+                    last_obj is not None and last_obj.sline == docs_line
+                ):
+                    file_ast.add_doc(format(docs))
+                    log.debug("%s !!! Doc string - Line:%d", format(docs), ln)
                 docs[:] = []  # empty the documentation stack
 
         # Check for comments in line
